@@ -30,6 +30,14 @@ def account(stats, sim, knobs, al, results):
     bump(stats, "probes", "asyncgen_finalizer_hits", len(sim.loop.finalizer_hits))
     for rr in results:
         bump(stats, "result_kinds", str(rr.kind))
+        queues = getattr(rr.executor, "_stream_item_queues", None)
+        if queues:
+            # stream queues exist although the response is a plain result: they were created by
+            # work that failed, was filtered out or is settled in the background
+            bump(stats, "probes", "plain_result_with_stream_queues", 1 if rr.kind == "single" else 0)
+            bump(stats, "probes", "stream_queue_created_after_final_cleanup", sum(
+                1 for q in queues if rr.cleanup_poll is not None
+                and getattr(q, "_verif_created_poll", -1) >= rr.cleanup_poll))
         if rr.monitor is not None:
             for f in rr.monitor.features:
                 bump(stats, "probes", f)
